@@ -56,8 +56,8 @@ Theorem C05_tracing_while_positive :
     (k = LP -> w_trace w' t = true) /\ ((t = main_thread \/ k = CP) -> w_tool w' = true).
 Proof. exact held_while_positive. Qed.
 
-(* Every call of a decorated callable (wrap_function; one resume of wrap_generator; a
-   with-block; wrap_coroutine run to its end) = Block body, whose body uses the profiler only
+(* Every call of a decorated callable (wrap_function; one resume of wrap_generator, including the
+   turn that forwards close()/throw() into the wrapped generator; a with-block; wrap_coroutine run to its end) = Block body, whose body uses the profiler only
    through further decorated calls / with-blocks, nested to any depth, returning or raising
    anywhere, caught or not: it leaves count, trace slot and tool as it found them - whatever
    other threads do in between. *)
@@ -79,6 +79,24 @@ Theorem C05_matched_restores_contextual :
   forall h w w', inv CP w -> run CP h w = Ok w' -> matched (map snd h) = true ->
     w_count w' 0 = w_count w 0 /\ w_tool w' = w_tool w.
 Proof. exact matched_restores_cp. Qed.
+
+(* Every operation on a wrapped generator (resume, close(), throw(), dropping it - in any state
+   of the object) is such a matched stretch: the turn that forwards close()/throw() into the
+   wrapped generator runs between one enable/disable pair; likewise begin+end of a suspended
+   coroutine / async-generator step. *)
+Theorem C05_generator_ops_matched :
+  forall t o st, is_gen_op o = true -> matched (map snd (prims_of (fst (obj_expand t o st)))) = true.
+Proof. exact generator_ops_matched. Qed.
+
+Theorem C05_suspended_steps_matched :
+  forall t,
+  matched (map snd (prims_of (fst (obj_expand t CoStart SEmpty) ++ fst (obj_expand t CoClose SCo)))) = true
+  /\ matched (map snd (prims_of (fst (obj_expand t CoStart SEmpty) ++ fst (obj_expand t CoResume SCo)))) = true
+  /\ matched (map snd (prims_of (fst (obj_expand t AgStart SEmpty) ++ fst (obj_expand t AgClose SAgMid)))) = true
+  /\ matched (map snd (prims_of (fst (obj_expand t AgStart SEmpty) ++ fst (obj_expand t AgResume SAgMid)))) = true
+  /\ matched (map snd (prims_of (fst (obj_expand t AgClose SAgYield)))) = true
+  /\ matched (map snd (prims_of (fst (obj_expand t AgResume SAgYield)))) = true.
+Proof. exact suspended_steps_matched. Qed.
 
 (* Inside a decorated call the count is positive. *)
 Theorem C05_inside_call_positive :
